@@ -73,6 +73,36 @@ func toLib(it rlpref.Item) rlp.Element {
 	return rlp.Data(it.Str)
 }
 
+// strTotal is the number of string bytes in the tree.
+func strTotal(it rlpref.Item) int {
+	if !it.IsList {
+		return len(it.Str)
+	}
+	n := 0
+	for _, c := range it.List {
+		n += strTotal(c)
+	}
+	return n
+}
+
+// toLibArena builds the library tree with EVERY string a sub-slice of one shared
+// buffer, laid out in order, so that each string has the following ones inside its
+// spare capacity - the way a caller that slices fields out of a received message
+// holds them. An encoder that appends to (or pads in place) a caller's slice
+// corrupts the siblings and the buffer.
+func toLibArena(it rlpref.Item, arena *[]byte) rlp.Element {
+	if it.IsList {
+		l := rlp.List{}
+		for _, c := range it.List {
+			l = append(l, toLibArena(c, arena))
+		}
+		return l
+	}
+	off := len(*arena)
+	*arena = append(*arena, it.Str...)
+	return rlp.Data((*arena)[off : off+len(it.Str)])
+}
+
 func fromLib(e rlp.Element) (rlpref.Item, error) {
 	switch v := e.(type) {
 	case rlp.Data:
@@ -115,7 +145,24 @@ func judgeTree(c TreeCase) (vs []evid.Violation) {
 	if !bytes.Equal(got, want) {
 		return append(vs, evid.V("encode-canonical", "Encode differs from Yellow-Paper RLP: got %s want %s", short(got), short(want)))
 	}
+	// caller-owned memory: strings carved from one buffer; the buffer must not be written to,
+	// and encoding the same tree twice must give the same bytes
+	arena := make([]byte, 0, strTotal(it)+64)
+	shared := toLibArena(it, &arena)
+	snapshot := append([]byte{}, arena[:cap(arena)]...)
+	got1 := shared.Encode()
+	got2 := shared.Encode()
+	if !bytes.Equal(got1, want) {
+		vs = append(vs, evid.V("encode-canonical-shared-buffer", "Encode of a tree whose strings share one buffer differs from Yellow-Paper RLP: got %s want %s", short(got1), short(want)))
+	}
+	if !bytes.Equal(got1, got2) {
+		vs = append(vs, evid.V("encode-repeatable", "encoding the same tree twice gives different bytes: %s then %s", short(got1), short(got2)))
+	}
+	if !bytes.Equal(arena[:cap(arena)], snapshot) {
+		vs = append(vs, evid.V("caller-memory-unmodified", "Encode wrote into the caller's buffer (strings and their spare capacity): before %s after %s", short(snapshot), short(arena[:cap(arena)])))
+	}
 	in := append(append([]byte{}, got...), suffix...)
+	inSnapshot := append([]byte{}, in...)
 	e, pos, err := rlp.Decode(in)
 	if err != nil {
 		return append(vs, evid.V("decode-own-output", "Decode of own encoding (+%d suffix bytes) failed: %v", len(suffix), err))
@@ -129,6 +176,16 @@ func judgeTree(c TreeCase) (vs []evid.Violation) {
 	}
 	if !rlpref.Equal(back, it) {
 		vs = append(vs, evid.V("decode-roundtrip", "decoded tree differs from the encoded one: re-encoded %s want %s", short(rlpref.Encode(back)), short(want)))
+	}
+	if !bytes.Equal(in, inSnapshot) {
+		vs = append(vs, evid.V("decode-input-unmodified", "Decode modified its input"))
+	}
+	// the decoded element must not alias the input: reuse the input buffer, the element stays what it was
+	for i := range in {
+		in[i] ^= 0xa5
+	}
+	if back2, cerr2 := fromLib(e); cerr2 != nil || !rlpref.Equal(back2, it) {
+		vs = append(vs, evid.V("decode-result-independent-of-input-buffer", "the decoded element changed when the caller reused the input buffer"))
 	}
 	return vs
 }
